@@ -5,7 +5,7 @@ import numpy as np
 from hypothesis import strategies as st
 
 import lightmotif
-from c17 import build_pssm, pssm_rows, sequence_st, sites_st
+from c17 import build_pssm, dyadic_background, pssm_rows, sequence_st, sites_st
 from common import ORDINARY, Sub, Violation, nopanic
 from refmodel import indices, letters, striped_model, window_scores_f32
 
@@ -226,7 +226,35 @@ def check_scores(a, info):
 
 
 def check_distribution(a, info):
-    pssm = build_pssm(a["sites"], False)
+    bg = a.get("bg")
+    if bg is None:
+        pssm = build_pssm(a["sites"], False)
+    else:
+        pssm = lightmotif.create(a["sites"], protein=False).counts.normalize(0.25).log_odds(bg)
+    # the object under test may have a history: it is the reverse complement of a matrix whose own distribution was
+    # (or was not) looked at first. Whatever the history, its view must show ITS survival function: the values of
+    # an equal matrix built from scratch (same cells, same background), computed by the same code
+    history = a.get("history", "")
+    for op in history:
+        if op == "d":
+            view_of(pssm.score_distribution, "ScoreDistribution")
+        elif op == "p":
+            pssm.pvalue(0.0)
+        else:
+            pssm = pssm.reverse_complement()
+    if history:
+        rows = pssm_rows(pssm)
+        cols = {c: [float(r[j]) for r in rows] for j, c in enumerate("ACTGN")}
+        fresh = lightmotif.ScoringMatrix(cols, bg) if bg is not None else lightmotif.ScoringMatrix(cols)
+        if pssm_rows(fresh) == rows:
+            got = view_of(pssm.score_distribution, "ScoreDistribution").tolist()
+            want = view_of(fresh.score_distribution, "ScoreDistribution").tolist()
+            info.comparisons += len(want)
+            if got != want:
+                i = next(i for i in range(min(len(got), len(want))) if got[i] != want[i]) if len(got) == len(want) else -1
+                raise Violation("ScoreDistribution:buffer-content", "history %r: the view of this matrix differs from the view of an equal matrix built from scratch (first at index %d: %r vs %r)" % (history, i, got[i] if i >= 0 else None, want[i] if i >= 0 else None))
+            info.cls("view-after-history:%s" % history)
+            info.cls("strand-asymmetric-background", bg is not None and (bg.get("A") != bg.get("T") or bg.get("C") != bg.get("G")))
     d = pssm.score_distribution
     v = view_of(d, "ScoreDistribution")
     if v.format != "d" or v.itemsize != 8 or v.ndim != 1:
@@ -286,8 +314,8 @@ SUBS = [
         matrix_args(), check_matrices, 250, 4000),
     Sub("striped-scores", "StripedScores from calculate (incl. L < M = empty): len = L-M+1, obj[i] incl. negatives, float view of shape (32, rows) whose [column][row] element is the score of position column*rows+row; empty scores must expose an empty view (no panic); non-trivial = >= 2 rows",
         score_args(), check_scores, 250, 4000),
-    Sub("score-distribution", "ScoringMatrix.score_distribution: 1-D double view of 1000*M+1 non-increasing values in [0,1]",
-        st.fixed_dictionaries({"sites": sites_st(False, min_n=2, max_n=5, min_w=1, max_w=6)}), check_distribution, 60, 600),
+    Sub("score-distribution", "ScoringMatrix.score_distribution: 1-D double view of 1000*M+1 non-increasing values in [0,1]; under a uniform or a generated (mostly strand-asymmetric) background; also for a matrix with a history - the reverse complement of a matrix whose own distribution or p-value was (not) asked first - whose view must equal that of an equal matrix built from scratch",
+        st.fixed_dictionaries({"sites": sites_st(False, min_n=2, max_n=5, min_w=1, max_w=6), "bg": st.one_of(st.none(), dyadic_background(False)), "history": st.sampled_from(["", "", "r", "dr", "pr", "drr", "rdr"])}), check_distribution, 60, 600),
 ]
 
 ASSUMPTIONS = [
